@@ -1,11 +1,11 @@
 \* design run (C22, quick): every structure with up to 3 nodes over the node kinds of the quick
-\* generation plus while/else/uses, at most 2 decorations, no pruning by broken rules; checks the
+\* generation plus while/else/uses/two @tile forms, at most 2 decorations, no pruning by broken rules; checks the
 \* sanity theorems of the rule definitions and of the renderer on each of them
 SPECIFICATION Spec
 CONSTANTS
   MaxNodes = 3
   MaxDepth = 3
-  Kinds = {"fo","fi","fp","wh","if","el","us","br","co","sh","shs","shn","ex"}
+  Kinds = {"fo","fi","fp","wh","if","el","us","br","co","sh","shs","shn","ex","toi","tio"}
   GoodH = {"lt"}
   BadH = {"noupd"}
   RetTypes = {"void","int"}
